@@ -53,25 +53,32 @@ int main() {
 			}
 			std::ostream &o = std::cout;
 			o << "> begin api\n";
-			for (auto &s : f.shells) o << "> shell " << bits(s.center()[0]) << " " << bits(s.center()[1]) << " " << bits(s.center()[2]) << " " << s.ncartesian() << "\n";
-			for (int u = 0; u < f.ecps.getN(); u++) { auto &U = f.ecps.getECP(u); o << "> ecp " << bits(U.center_[0]) << " " << bits(U.center_[1]) << " " << bits(U.center_[2]) << "\n"; }
+			// reference objects built directly from the system's definitions at the geometry the integrator is at now: the blocks the
+			// model assembles come from THESE, so a slip in the integrator's own parsing of the flat arrays (set_gaussian_basis,
+			// set_ecp_basis, the coordinate updates) shows as a difference, instead of being shared by both sides
+			int gnow = moved ? vh::I(t[2]) : g;
+			std::vector<GaussianShell> RS = sys.ref_shells(gnow);
+			std::vector<ECP> RU = sys.ref_ecps(gnow);
+			for (auto &s : RS) o << "> shell " << bits(s.center()[0]) << " " << bits(s.center()[1]) << " " << bits(s.center()[2]) << " " << s.ncartesian() << "\n";
+			for (auto &U : RU) o << "> ecp " << bits(U.center_[0]) << " " << bits(U.center_[1]) << " " << bits(U.center_[2]) << "\n";
 			// the shell/ECP distance screen of compute_integrals, restated from its documentation
 			// (threshold built from maxLB and the smallest exponent, compared with shell_bound)
 			{
-				int maxLB = f.maxLB; double min_alpha = f.min_alpha;
+				int maxLB = 0; double min_alpha = 100.0;
+				for (auto &s : RS) { if (s.am() > maxLB) maxLB = s.am(); if (s.min_exp < min_alpha) min_alpha = s.min_exp; }
 				double thresh = FAST_POW[maxLB+3]((maxLB+3.0)/min_alpha)*FAST_POW[3](M_PI/(2*maxLB+3.0));
 				thresh /= FAST_POW[maxLB](2.0*M_EULER);
 				thresh = TWO_C_TOLERANCE / std::sqrt(thresh);
-				for (size_t s = 0; s < f.shells.size(); s++) for (int u = 0; u < f.ecps.getN(); u++) {
-					auto &A = f.shells[s]; auto &U = f.ecps.getECP(u);
+				for (size_t s = 0; s < RS.size(); s++) for (size_t u = 0; u < RU.size(); u++) {
+					auto &A = RS[s]; auto &U = RU[u];
 					double ax = A.center()[0]-U.center_[0], ay = A.center()[1]-U.center_[1], az = A.center()[2]-U.center_[2];
 					double sb = shell_bound(A.l, A.min_exp, ax*ax+ay*ay+az*az, U.min_exp);
 					if (sb > thresh) o << "> kept " << s << " " << u << "\n";
 				}
 			}
 			TwoIndex<double> I0; std::array<TwoIndex<double>, 9> D; std::array<TwoIndex<double>, 45> H;
-			for (size_t s1 = 0; s1 < f.shells.size(); s1++) for (size_t s2 = 0; s2 <= s1; s2++) for (int u = 0; u < f.ecps.getN(); u++) {
-				auto &A = f.shells[s1]; auto &B = f.shells[s2]; auto &U = f.ecps.getECP(u);
+			for (size_t s1 = 0; s1 < RS.size(); s1++) for (size_t s2 = 0; s2 <= s1; s2++) for (size_t u = 0; u < RU.size(); u++) {
+				auto &A = RS[s1]; auto &B = RS[s2]; auto &U = RU[u];
 				f.ecpint->compute_shell_pair(U, A, B, I0);
 				o << "> i " << s1 << " " << s2 << " " << u; mat(o, I0); o << "\n";
 				if (deriv >= 1) { f.ecpint->compute_shell_pair_derivative(U, A, B, D); for (int i = 0; i < 9; i++) { o << "> d " << s1 << " " << s2 << " " << u << " " << i; mat(o, D[i]); o << "\n"; } }
